@@ -1179,7 +1179,13 @@ func (f *File) readChunkAt(ch chan result, b []byte, off int64) (n int, err erro
 				return n, &unexpectedIDErr{id, sid}
 			}
 
-			l, data := unmarshalUint32(data)
+			l, data, err := unmarshalUint32Safe(data)
+			if err != nil {
+				return n, err
+			}
+			if uint64(l) > uint64(len(data)) {
+				return n, errShortPacket
+			}
 			n += copy(b[n:], data[:l])
 
 		default:
@@ -1325,14 +1331,21 @@ func (f *File) readAt(b []byte, off int64) (int, error) {
 							err = &unexpectedIDErr{packet.id, sid}
 
 						} else {
-							l, data := unmarshalUint32(data)
-							n = copy(packet.b, data[:l])
+							l, data, err1 := unmarshalUint32Safe(data)
+							if err1 == nil && uint64(l) > uint64(len(data)) {
+								err1 = errShortPacket
+							}
+							if err1 != nil {
+								err = err1
+							} else {
+								n = copy(packet.b, data[:l])
 
-							// For normal disk files, it is guaranteed that this will read
-							// the specified number of bytes, or up to end of file.
-							// This implies, if we have a short read, that means EOF.
-							if n < len(packet.b) {
-								err = io.EOF
+								// For normal disk files, it is guaranteed that this will read
+								// the specified number of bytes, or up to end of file.
+								// This implies, if we have a short read, that means EOF.
+								if n < len(packet.b) {
+									err = io.EOF
+								}
 							}
 						}
 
@@ -1554,10 +1567,17 @@ func (f *File) WriteTo(w io.Writer) (written int64, err error) {
 							err = &unexpectedIDErr{readWork.id, sid}
 
 						} else {
-							l, data := unmarshalUint32(data)
-							b = pool.Get()[:l]
-							n = copy(b, data[:l])
-							b = b[:n]
+							l, data, err1 := unmarshalUint32Safe(data)
+							if err1 == nil && (uint64(l) > uint64(len(data)) || uint64(l) > uint64(chunkSize)) {
+								err1 = errShortPacket
+							}
+							if err1 != nil {
+								err = err1
+							} else {
+								b = pool.Get()[:l]
+								n = copy(b, data[:l])
+								b = b[:n]
+							}
 						}
 
 					default:
